@@ -24,6 +24,10 @@ pub fn bindings() -> Vec<(Fmt, Binding)> {
             v.push((f, Binding::Box));
         }
     }
+    // "including update manifests": the asset carries an update manifest, the binding in force
+    // is its parent's (C21 runs the whole list of formats; C01 keeps one data-hash and one BMFF case)
+    v.push((Fmt::Jpeg, Binding::Update));
+    v.push((Fmt::Mp4, Binding::Update));
     v.push((Fmt::Jpeg, Binding::NoTrust));
     v.push((Fmt::Mp4, Binding::NoTrust));
     v.push((Fmt::Mp4, Binding::MerkleAligned));
@@ -235,7 +239,8 @@ impl Property for C01 {
         let within = rc.idx % per;
         let (fmt, binding) = b[(within / SHARDS) as usize];
         let shard = within % SHARDS;
-        let s = match sign_for(rc, fmt, binding, variant) {
+        let signed = if binding == Binding::Update { crate::props::c21::build(rc, fmt, Binding::Default, variant, false) } else { sign_for(rc, fmt, binding, variant) };
+        let s = match signed {
             Ok(s) => s,
             Err(e) => {
                 out.harness_error = Some(format!("{}:{:?}: {e}", fmt.name(), binding));
